@@ -184,6 +184,10 @@ class Facts:
                     self.canon_log.append("moved/renamed: %s is analysed as %s" % (new, old))
             # P2: functions the reference tree does not have are spliced into their callers
             self.canon_log += canon.inline_new_functions(self, self.crate)
+            # P5: hand-written `if a > b { b } else { a }` is read as min(a, b)
+            self.canon_log += canon.recognise_minmax(self)
+            # P4: tuples built only to be matched on are replaced by their components
+            self.canon_log += canon.scalarise_tuples(self)
             # P3: materialised booleans are threaded back into control flow
             self.canon_log += canon.thread_booleans(self)
         self._callers = None
